@@ -282,9 +282,11 @@ func c17WS(ctx *Ctx, i int, rng *rand.Rand, lib string) { c17WSx(ctx, i, rng, li
 // rawWSCodec is a WebSocket peer that fragments: every message goes out as several frames
 // (first frame + continuation frames), as any peer is allowed to (RFC 6455 5.4).
 type rawWSCodec struct {
-	conn  net.Conn
-	rng   *rand.Rand
-	pings bool
+	conn   net.Conn
+	rng    *rand.Rand
+	pings  bool
+	binary bool // alternate between text and binary data messages (both carry JSON; RFC 6455 leaves the choice to the sender)
+	n      int
 }
 
 func (c *rawWSCodec) ReadMessage() (*jsonrpc2.Message, error) { select {} }
@@ -301,6 +303,10 @@ func (c *rawWSCodec) WriteMessage(m *jsonrpc2.Message) error {
 		parts += c.rng.Intn(6)
 	}
 	op := ws.OpText
+	c.n++
+	if c.binary && c.n%2 == 0 {
+		op = ws.OpBinary
+	}
 	for k := 0; k < parts; k++ {
 		n := len(b)
 		if k < parts-1 {
@@ -363,7 +369,7 @@ func c17WSx(ctx *Ctx, i int, rng *rand.Rand, clientLib, lib string) {
 	default:
 		var conn net.Conn
 		conn, _, _, err = ws.Dial(cctx, "ws://"+paddr)
-		codec = &rawWSCodec{conn: conn, rng: rand.New(rand.NewSource(int64(i))), pings: clientLib == "raw-pings"}
+		codec = &rawWSCodec{conn: conn, rng: rand.New(rand.NewSource(int64(i))), pings: clientLib == "raw-pings", binary: clientLib == "raw-binary"}
 	}
 	if err != nil {
 		fatal("ws dial (%s): %v", clientLib, err)
@@ -497,14 +503,14 @@ func c17HTTP(ctx *Ctx, i int, rng *rand.Rand) {
 func runC17(ctx *Ctx) {
 	n := ctx.N(300, 8000)
 	forEachCase(ctx, n, func(i int, rng *rand.Rand) { c17Stream(ctx, i, rng, i%10 == 9) })
-	extra := ctx.N(9, 90)
+	extra := ctx.N(12, 120)
 	for c := 0; c < extra; c++ {
 		i := n + c
 		if !ctx.Want(i) {
 			continue
 		}
 		rng := ctx.Sub(i)
-		switch c % 9 {
+		switch c % 12 {
 		case 0, 6:
 			c17WS(ctx, i, rng, "gorilla")
 		case 1:
@@ -515,6 +521,10 @@ func runC17(ctx *Ctx) {
 			c17WSx(ctx, i, rng, "raw-pings", "gobwas")
 		case 7:
 			c17WSx(ctx, i, rng, "raw-pings", "gorilla")
+		case 2:
+			c17WSx(ctx, i, rng, "gobwas", "gorilla") // gobwas sends binary data messages
+		case 5:
+			c17WSx(ctx, i, rng, "raw-binary", []string{"gorilla", "gobwas"}[rng.Intn(2)])
 		default:
 			c17HTTP(ctx, i, rng)
 		}
